@@ -139,18 +139,19 @@ func c16ParseRaces(stderr string) []c16RaceReport {
 }
 
 const (
-	c16OpenapiPkg   = "sigs.k8s.io/kustomize/kyaml/openapi."
-	c16KnownRace    = "C16/race-IsNamespaceScoped-read"
-	c16ReinitRace   = "C16/race-unlocked-read-vs-reinit-after-explicit-version"
-	c16MapFatal     = "C16/fatal-concurrent-map-access"
+	c16OpenapiPkg = "sigs.k8s.io/kustomize/kyaml/openapi."
+	c16KnownRace  = "C16/race-IsNamespaceScoped-read"
+	c16ReinitRace = "C16/race-unlocked-read-vs-reinit-after-explicit-version"
+	c16MapFatal   = "C16/fatal-concurrent-map-access"
 )
 
 // c16RaceClass maps exactly the confirmed shapes to their finding classes; everything else keeps a class
 // that names the function pair (unlisted => VIOLATION).
-//   known 1: unlocked read in IsNamespaceScoped vs write under initSchema (findNamespaceability), any round;
-//   known 2 (only rounds that contain a tree spelling out `openapi: version: <default>`, which makes SetSchema clear
-//            schemaInit so that another build re-runs initSchema): the same IsNamespaceScoped read, or the unlocked
-//            reads that follow initSchema() (SchemaForResourceType, rootSchema users) vs the writes of the re-parse.
+//
+//	known 1: unlocked read in IsNamespaceScoped vs write under initSchema (findNamespaceability), any round;
+//	known 2 (only rounds that contain a tree spelling out `openapi: version: <default>`, which makes SetSchema clear
+//	         schemaInit so that another build re-runs initSchema): the same IsNamespaceScoped read, or the unlocked
+//	         reads that follow initSchema() (SchemaForResourceType, rootSchema users) vs the writes of the re-parse.
 func c16RaceClass(rep c16RaceReport, explicitVersion bool) string {
 	r, w := "", ""
 	for _, f := range rep.Funcs {
